@@ -268,3 +268,25 @@ def c_nest(n: size, m: size, flag: bool, a: f32, A: f32[n, m]):
         CfgM.r = a
     CfgM.c = 0
 ''')
+
+add("c_loopcall", '''
+@config
+class CfgN:
+    mode: bool
+    g: f32
+    cnt: index
+
+@proc
+def scale_n(n: size, x: [f32][n]):
+    for i in seq(0, n):
+        if CfgN.mode:
+            x[i] = x[i] * CfgN.g
+
+@proc
+def c_loopcall(n: size, m: size, flag: bool, a: f32, A: f32[m, n]):
+    CfgN.mode = flag
+    CfgN.g = a
+    for j in seq(0, m):
+        scale_n(n, A[j, 0:n])
+        CfgN.cnt = 1
+''')
